@@ -255,6 +255,49 @@ mod groups {
         kani::cover!(tracked.is_none(), "untracked");
     }
 
+    /// Eviction step on a FULL table (16 = capacity) for a sender that is not tracked: exactly the
+    /// least-recently-used slot is handed over, with a FRESH window for the new sender; every other
+    /// slot is untouched. (No distinctness assumption among the other senders is needed for this
+    /// step, which keeps it cheap enough for the quick tier.)
+    // TIER: quick   KIND: complete
+    #[kani::proof]
+    #[kani::unwind(18)]
+    fn c04_group_store_evict_step() {
+        let mut st = GroupCtrStore::new();
+        st.clock = kani::any();
+        let fab: u8 = kani::any();
+        let node: u64 = kani::any();
+        let m: u32 = kani::any();
+        for _ in 0..MAX_GROUP_CTR_ENTRIES {
+            let e = any_entry();
+            kani::assume(!(e.fab_idx == fab && e.src_nodeid == node));
+            let _ = st.entries.push(e);
+        }
+        let before = snapshot(&st);
+
+        let r = st.post_recv(fab, node, m);
+
+        let after = snapshot(&st);
+        kani::assert(r, "C04.evict.untracked_accepted");
+        kani::assert(st.entries.len() == MAX_GROUP_CTR_ENTRIES, "C04.evict.len_unchanged");
+        let k: usize = kani::any();
+        kani::assume(k < MAX_GROUP_CTR_ENTRIES);
+        if after[k].0 == fab && after[k].1 == node {
+            // the slot that now tracks the new sender ...
+            let j: usize = kani::any();
+            kani::assume(j < MAX_GROUP_CTR_ENTRIES);
+            kani::assert(before[k].4 <= before[j].4, "C04.evict.victim_was_lru");
+            kani::assert(j == k || after[j] == before[j], "C04.evict.others_untouched");
+            // ... starts from a fresh window: exactly what `RxCtrState::new(m)` is
+            kani::assert(after[k].2 == m && after[k].3 == 0xffff, "C04.evict.fresh_window_for_new_sender");
+        }
+        let found = (0..MAX_GROUP_CTR_ENTRIES).any(|i| after[i].0 == fab && after[i].1 == node);
+        kani::assert(found, "C04.evict.new_sender_tracked");
+        // and a replay of the same counter by the new sender is refused
+        kani::assert(!st.post_recv(fab, node, m), "C04.evict.replay_refused");
+        kani::cover!(before[0].4 > before[15].4, "lru is not the first slot");
+    }
+
     /// Store below capacity (reduced: 3 tracked senders) - quick tier, labelled bounded.
     // TIER: quick   KIND: bounded (3 of 16 tracked group senders)
     #[kani::proof]
